@@ -89,7 +89,7 @@ def run_case(ctx, i, rng):
     profile = "any" if i % 3 == 0 else "flatten"
     n = gen_ir.generate(rng, profile=profile, share=0.7, ndefs=rng.randint(3, 10), max_children=rng.choice([3, 4, 5]))
     # "any" may produce children without pins etc. but all children have references
-    e0 = Elab(n)
+    e0 = Elab(n, max_occ=2500)
     if e0.truncated:
         ctx.count("discarded_too_large")
         return
@@ -105,7 +105,7 @@ def run_case(ctx, i, rng):
 
     def post(label, a, k, r, e):
         hook_state["n"] += 1
-        if hook_state["bad"] is None and hook_state["n"] % 2 == 0:
+        if hook_state["bad"] is None and hook_state["n"] % max(2, u.size() // 250) == 0:
             u.close()
             errs = wf.check_c01(u) + wf.check_c02(u)
             ctx.count("embedded_invariant_evals")
